@@ -167,11 +167,9 @@ and eval_history (inp : string list) (impl : string list) : Drv.verdict =
   let parts = split_on ";" inp in
   let header, ops = (match parts with h :: o -> h, o | [] -> failwith "empty case") in
   let m0, s0 = init_of_header header in
-  (* live-safe stack: an engine base and at most one tree-bearing layer (see KvOps.op_kills_lives) *)
-  let lsafe = (match header with
-    | b :: layers -> String.length b >= 3 && (String.sub b 0 3 = "ldb" || String.sub b 0 3 = "pbl")
-                     && List.length (List.filter (fun l -> l = "f" || l = "z") layers) <= 1
-    | [] -> false) in
+  (* live-safe stack: decided by the extracted KvStack.stack_lsafe (an assumption of the correspondence,
+     see model/KvStack.v), not here *)
+  let lsafe = stack_lsafe m0 in
   let r = ref { r_store = m0; r_batches = []; r_snaps = []; r_lives = [] } in
   let sr = ref { ss_store = s0; ss_batches = []; ss_snaps = []; ss_lives = [] } in
   let rest = ref impl in
